@@ -31,13 +31,17 @@
    savedir <tmp: hex | - | absent> <lease before: hex | - | absent> <hex of the bytes this save writes>
         saveConfig from an arbitrary directory state (Model/LeaseBytes.v save_fs): observation
         lease=<hex> tmp=<hex|-|absent>  — the two files after the save
+   multi <op>*   several handlers over one lease file (Model/LeaseMulti.v): op = N<h> (New), A<h><label> (ACK of client
+        label on handler h), D<h><label> (handler h drops label: decline), Q<h> (DISCOVER only), C<h> (Close),
+        O<h> (StartHunt/StopHunt/PrintTable/SetMode); observation: the labels in the file after each op (- = none)
+   writers     the exported API functions through which the lease file can be written
    consts      the constants the model hard-codes, against the values read from the Go source (go/parser):
         checksum key, temp-file suffix, StateFree/Discover/Allocated, StageNormal/Redirected, default lease
         duration (ns), the netfilter DNS server
    save <lease>*|-   (the in-memory table, any state; a single - for the empty table)
       observation: the lease records of the written document, sorted by client id *)
 From PV Require Import Base.Text Model.LeaseBase Model.Lease Model.LeaseKnown Model.LeaseServe.
-From PV Require Import Model.LeaseBytes.
+From PV Require Import Model.LeaseBytes Model.LeaseMulti.
 From PV Require Model.DHCP Model.DHCPShow.
 Open Scope string_scope.
 Open Scope N_scope.
@@ -320,6 +324,43 @@ Definition savedir (args : list string) : string :=
   | _ => BADARGS
   end.
 
+(* ---------------- several handlers over one file ---------------- *)
+Definition mop_of_tok (s : string) : option mop :=
+  match s with
+  | String k (String h r) =>
+      let hn := N_of_ascii h in
+      let lab := match r with String c _ => N_of_ascii c | EmptyString => 0 end in
+      let mk kind eff := Some {| o_h := hn; o_kind := kind; o_eff := eff |} in
+      if Ascii.eqb k "N" then mk KNew (fun t => t)
+      else if Ascii.eqb k "A" then mk KAck (fun t => if existsb (N.eqb lab) t then t else (t ++ [lab])%list)
+      else if Ascii.eqb k "D" then mk KDrop (fun t => filter (fun x => negb (x =? lab)) t)
+      else if Ascii.eqb k "Q" then mk KQuiet (fun t => t)
+      else if Ascii.eqb k "C" then mk KClose (fun t => t)
+      else if Ascii.eqb k "O" then mk KOther (fun t => t)
+      else None
+  | _ => None
+  end.
+
+Fixpoint ins_N (x : N) (l : list N) : list N :=
+  match l with [] => [x] | y :: r => if x <=? y then x :: l else y :: ins_N x r end.
+Definition show_labels (t : mtable) : string :=
+  match t with [] => "-" | _ => string_of_bytes (fold_right ins_N [] t) end.
+
+Fixpoint multi_trace (s : mstate) (ops : list mop) : list string :=
+  match ops with
+  | [] => []
+  | o :: r => let s1 := mstep s o in show_labels (m_file s1) :: multi_trace s1 r
+  end.
+
+Definition multi (args : list string) : string :=
+  match all_some (map mop_of_tok args) with
+  | Some ops => out3 (join " " (multi_trace {| m_file := []; m_tables := [] |} ops)) "-" "-"
+  | None => BADARGS
+  end.
+
+(* Config.New / New, ProcessPacket, MinuteTicker: the exported functions below which writes_file operations happen *)
+Definition writers_line : string := "MinuteTicker,New,ProcessPacket".
+
 (* ---------------- dispatch ---------------- *)
 Definition input_of_args (a : list string) : option input :=
   match a with
@@ -366,6 +407,8 @@ Definition dispatch (kind : string) (args : list string) : string :=
   else if String.eqb kind "cont" then cont args
   else if String.eqb kind "sumline" then sumline args
   else if String.eqb kind "savedir" then savedir args
+  else if String.eqb kind "multi" then multi args
+  else if String.eqb kind "writers" then out3 writers_line "-" "-"
   else if String.eqb kind "consts" then out3 consts_line "-" "-"
   else if String.eqb kind "save" then
     match all_some (map rec_of_tok (filter (fun a => negb (String.eqb a "-")) args)) with
